@@ -98,8 +98,28 @@ def canon(dotted: str) -> str:
 UNDEF = ("undef",)
 
 
+TAGS = frozenset({
+    "const", "param", "glob", "func", "class", "closure", "call", "star", "attr", "sub", "slice", "binop", "unop",
+    "boolop", "cmp", "tuple", "list", "set", "dict", "fstr", "phi", "ifexp", "comp", "bv", "lambda", "loopvar",
+    "carried", "loopout", "mut", "setitem", "setattr", "retphi", "not", "undef", "unknown", "modvar", "in-loop",
+    # normal forms (alg.py / rules_kernel.py)
+    "poly", "op", "ifnone", "if", "qsel", "msg", "cap", "tvar", "basevar", "name",
+})
+_STR_SECOND = frozenset({"glob", "func", "class", "param", "modvar", "closure", "loopvar", "carried", "loopout", "unknown"})
+
+
 def is_term(x) -> bool:
-    return isinstance(x, tuple) and bool(x) and isinstance(x[0], str)
+    """A term is a tuple whose first element is a known tag.  Keyword pairs ``(name, term)``
+    inside call terms are NOT terms even if the keyword is spelled like a tag (``func=``)."""
+    if not (isinstance(x, tuple) and x and isinstance(x[0], str) and x[0] in TAGS):
+        return False
+    if x[0] in _STR_SECOND:
+        return len(x) >= 2 and isinstance(x[1], str)
+    if x[0] == "call":
+        return len(x) == 4 and isinstance(x[2], tuple) and isinstance(x[3], tuple)
+    if x[0] in ("list", "tuple", "set", "dict") and len(x) == 2:
+        return isinstance(x[1], tuple)
+    return True
 
 
 def const(v):
@@ -320,6 +340,9 @@ _CMPOPS = {
 }
 
 
+_NEGATED_CMP = {"is": "is not", "is not": "is", "in": "not in", "not in": "in", "==": "!=", "!=": "=="}
+
+
 class Program:
     def __init__(self, repo: Path | None = None):
         self.repo = Path(repo) if repo else REPO
@@ -376,6 +399,31 @@ class Program:
                     visit(node.body, q, parent, q)
 
         visit(_all_stmts(m.tree.body), m.name, None, None)
+
+    def canonical_call(self, f, pargs, kws):
+        """Positional arguments of calls to known lcm functions / dataclasses are turned into
+        keyword arguments, so that ``g(a, b)`` and ``g(x=a, y=b)`` are the same term."""
+        names = None
+        if pargs and not any(p[0] == "star" for p in pargs):
+            if f[0] == "func":
+                info = self.funcs.get(f[1])
+                if info is not None and info.cls is None:
+                    a = info.node.args
+                    if not a.posonlyargs and not a.vararg:
+                        names = [x.arg for x in a.args]
+            elif f[0] == "class" and f[1] in self.classes:
+                cnode = self.classes[f[1]]
+                if not any(isinstance(n, ast.FunctionDef) and n.name == "__init__" for n in cnode.body) and any(
+                        "dataclass" in ast.unparse(d) for d in cnode.decorator_list) and not any(
+                        isinstance(n, ast.AnnAssign) and isinstance(n.target, ast.Name) and n.target.id == "_" for n in cnode.body):
+                    names = [n.target.id for n in cnode.body if isinstance(n, ast.AnnAssign) and isinstance(n.target, ast.Name)]
+        if names is not None and len(pargs) <= len(names):
+            given = {k for k, _ in kws if k is not None}
+            new = list(zip(names, pargs, strict=False))
+            if not any(k in given for k, _ in new):
+                named = sorted([(k, v) for k, v in kws if k is not None] + new, key=lambda kv: kv[0])
+                return ("call", f, (), tuple(named) + tuple((k, v) for k, v in kws if k is None))
+        return ("call", f, pargs, kws)
 
     def load_extra(self, name: str, path) -> Module:
         """Parse an additional module (the reference kernels) with the same front end."""
@@ -1054,7 +1102,7 @@ class _Exec:
                 ((k.arg, self.expr(k.value)) for k in e.keywords if k.arg is not None),
                 key=lambda kv: kv[0],
             )) + tuple((None, self.expr(k.value)) for k in e.keywords if k.arg is None)
-            return ("call", f, pargs, kws)
+            return self.p.canonical_call(f, pargs, kws)
         if isinstance(e, ast.Subscript):
             return ("sub", self.expr(e.value), self.expr(e.slice))
         if isinstance(e, ast.Slice):
@@ -1063,13 +1111,23 @@ class _Exec:
         if isinstance(e, ast.BinOp):
             return ("binop", _BINOPS.get(type(e.op), "?"), self.expr(e.left), self.expr(e.right))
         if isinstance(e, ast.UnaryOp):
-            return ("unop", _UNOPS.get(type(e.op), "?"), self.expr(e.operand))
+            inner = self.expr(e.operand)
+            if isinstance(e.op, ast.Not) and inner[0] == "cmp" and len(inner[1]) == 1 and inner[1][0] in _NEGATED_CMP:
+                return ("cmp", (_NEGATED_CMP[inner[1][0]],), inner[2])  # not (a is b)  ==  a is not b
+            if isinstance(e.op, ast.Not) and inner[0] == "unop" and inner[1] == "not":
+                pass  # not not x is bool(x): keep as written
+            return ("unop", _UNOPS.get(type(e.op), "?"), inner)
         if isinstance(e, ast.BoolOp):
             return ("boolop", "and" if isinstance(e.op, ast.And) else "or",
                     tuple(self.expr(v) for v in e.values))
         if isinstance(e, ast.Compare):
             return ("cmp", tuple(_CMPOPS[type(o)] for o in e.ops),
                     tuple(self.expr(x) for x in [e.left, *e.comparators]))
+        if isinstance(e, (ast.Tuple, ast.List)) and len(e.elts) == 1 and isinstance(e.elts[0], ast.Starred) \
+                and isinstance(getattr(e, "ctx", None), ast.Load):
+            # [*x] == list(x), (*x,) == tuple(x)
+            name = "builtins.list" if isinstance(e, ast.List) else "builtins.tuple"
+            return ("call", ("glob", name), (self.expr(e.elts[0].value),), ())
         if isinstance(e, (ast.Tuple, ast.List, ast.Set)):
             tag = {ast.Tuple: "tuple", ast.List: "list", ast.Set: "set"}[type(e)]
             return (tag, tuple(
